@@ -148,6 +148,14 @@ def draw_model_cfg(data, tier, equivariant=None, allow_d3=True, classes=None):
         "torus": data.draw(st.booleans(), label="torus"), "N": N, "kernel_size": data.draw(st.sampled_from([1, 3]), label="kernel_size"),
         "explicit_mid": data.draw(st.booleans(), label="explicit_mid_keys"), "seed": data.draw(st.integers(0, 99999), label="seed"),
     }
+    # non-square inputs (extents stay compatible with the pooling) in a third of the cases
+    if data.draw(st.integers(0, 2), label="nonsquare") == 0:
+        unit = mult if cls == "UNet" else 1
+        lo = 2 if cls == "UNet" and d == 2 else 1
+        shape = [max(unit * data.draw(st.integers(lo, 3 if d == 2 else 2), label="N_ax"), 2) for _ in range(d)]
+        if cls == "UNet":
+            shape = [max(v, 4 if d == 2 else 2) for v in shape]
+        cfg["shape"] = shape
     if cls == "ConvBlock" and cfg["preact"]:
         # pre-activation order applies the norm / nonlinearity built for the output signature to the input: only defined when they agree
         cfg["out_sig"] = [list(map(lambda v: list(v) if isinstance(v, list) else v, s_)) for s_ in in_sig]
@@ -206,12 +214,16 @@ def build_model(cfg, seed=None):
     raise HarnessError(cls)
 
 
+def model_shape(cfg):
+    return tuple(cfg["shape"]) if cfg.get("shape") else (cfg["N"],) * cfg["d"]
+
+
 def model_input(cfg, seed, batch=None, kind="normal"):
-    d, N = cfg["d"], cfg["N"]
+    d = cfg["d"]
     rng = np.random.default_rng(seed)
     X = {}
     for (k, p), c in gen.sig_tuple(cfg["in_sig"]):
-        shp = (() if batch is None else (batch,)) + (c,) + (N,) * d + (d,) * k
+        shp = (() if batch is None else (batch,)) + (c,) + model_shape(cfg) + (d,) * k
         X[(k, p)] = rng.standard_normal(shp).astype(np.float32) if kind == "normal" else gen.ident_array(shp, start=1).astype(np.float32)
     return X
 
